@@ -102,6 +102,9 @@ pub fn run(sc: &Value) -> Value {
             }
             out["versions"] = json!(versions);
             out["format_problems"] = json!(crate::formatscan::scan(&arch));
+            if let Some(last) = archive.list_band_ids().await.unwrap().last() {
+                out["recorded_mtimes"] = json!(crate::formatscan::recorded_mtimes(&arch, &last.to_string()));
+            }
             if sc["validate_after"].as_bool().unwrap_or(false) {
                 let mut verrs = Vec::new();
                 let mut vok = true;
